@@ -272,7 +272,9 @@ pub fn tokenize(text: &str) -> RefDoc {
                 }
             }
             in_paragraph = false;
-            after_block = true;
+            // a title line glued to a *foreign* code block is not compared (whether the block splits the paragraph is not
+            // defined); after a scrut block the next title line starts a new title
+            after_block = !is_scrut;
             match close {
                 Some(j) => i = j + 1,
                 None => return doc,
